@@ -300,7 +300,7 @@ def fault_step(rng, kind: str, steps: list) -> dict | None:
 
 
 def seams_fault_ops():
-    return ("clear", "clear_typing", "shrink", "mutate_result", "mutate_input", "clock", "zone", "reclimit")
+    return ("clear", "clear_typing", "shrink", "mutate_result", "mutate_input", "clock", "zone", "reclimit", "rewrite_slot")
 
 
 def swarm(rng, kinds, *, fault_free_p=0.25):
